@@ -254,6 +254,39 @@ def w_hops(item, rep):
         rep.notes["B|%s|%d" % (name, n)] = row
         if cfg["multicast"]:
             multicast_checks(cfg, w, node, r, n, rep)
+        if cfg["multicast"] and cfg["prefix"] is None:
+            # the next hop of a unicast frame must not depend on the (public) multicast_level override
+            for override in sorted({(ln + 1) % 5, 0 if ln else 3}):
+                try:
+                    node.multicast_level = override
+                except Exception as e:  # noqa
+                    rep.violation("%s/raises-%s:multicast_level" % (PID, type(e).__name__), "multicast_level = %d at 0o%o raised %r" % (override, n, e),
+                                  {"part": "hop-mclevel", "cfg": cfg, "node": n, "override": override})
+                    break
+                for k, d in enumerate(ADDRS):
+                    if d == n or row[k] == -1:
+                        continue
+                    try:
+                        if on_air and k % 13 == 0:
+                            addr, _ = probe_air(w, node, r, d)
+                            rep.traces += 1
+                        else:
+                            tn, tp, _ = node._logi_2_phys(d, TX_NORMAL)
+                            addr = bytes(node._pipe_address(tn, tp))
+                    except (HarnessError, Abort):
+                        raise
+                    except Exception as e:  # noqa
+                        addr = None
+                    ls = LISTEN[name].get(bytes(addr), []) if addr is not None else []
+                    got = ls[0][0] if len(ls) == 1 and ls[0][1] != 0 else -1
+                    rep.transitions += 1
+                    if got != row[k]:
+                        rep.violation("%s/next-hop-depends-on-multicast-level:L%d:%s" % (PID, ln, R.relation(n, d)),
+                                      "node 0o%o with multicast_level=%d hands frames for 0o%o to %s, with its own level to 0o%o"
+                                      % (n, override, d, ("0o%o" % got) if got != -1 else (addr.hex() if addr else None), row[k]),
+                                      {"part": "hop-mclevel", "cfg": cfg, "node": n, "dst": d, "override": override})
+                        break
+                rep.outcome("hop:multicast-level-override")
 
 
 def multicast_checks(cfg, w, node, r, n, rep):
@@ -395,7 +428,7 @@ def run(tier, seed, rep, only=None):
              + "; then all 609 180 routes composed hop by hop and compared with the unique tree path (<= 8 hops). Listening map over "
                "all 781 x 6 (node, pipe): injective on pipes 1-5, pipe 0 = exactly one level (allow_multicast) / unique (off). "
                "multicast(level=None,0..4) from every node (allow_multicast on): first packet's address == that level's pipe-0 address. "
-               "6 configurations = {default, documentation's alternative, seed-derived 7 distinct bytes} x allow_multicast on/off. "
+               "6 configurations = {default, documentation's alternative, seed-derived 7 distinct bytes} x allow_multicast on/off; in the default configuration every node's decisions are repeated with two multicast_level overrides (must not change any next hop). "
                "non-trivial = distinct (configuration, node, next hop) edges used.",
         bounds=dict(addresses=781, states_per_config=609180, configurations=[c["name"] for c in cfgs], on_air_nodes=n_air,
                     multicast_levels="None,0..4"),
@@ -431,6 +464,10 @@ def replay(data):
         print("node 0o%o -> 0o%o: first packet to %s, listeners %s, reference next hop 0o%o"
               % (n, d, None if addr is None else addr.hex(), LISTEN[cfg["name"]].get(addr), R.next_hop(n, d)))
         judge_hop(cfg, n, d, addr, rep, r.get("how"))
+    elif r["part"] == "hop-mclevel":
+        # re-run the whole row of this node (own level, then the overrides)
+        global ADDRS_REPLAY
+        w_hops((cfg, [r["node"]], set()), rep)
     elif r["part"] == "multicast":
         w, node, rr = build(r["node"], cfg)
         multicast_checks(cfg, w, node, rr, r["node"], rep)
